@@ -226,7 +226,8 @@ func verifDecl(line string) (res string) {
 			l := where[a.Param]
 			k := "v"
 			if a.Param.isArg {
-				k = "a"
+				as = append(as, fmt.Sprintf("a%d:%d", l.node, tyID[a.Param.Type().String()]))
+				continue
 			}
 			wm := ""
 			if a.IsWait && a.Param.WithChannel() {
@@ -264,8 +265,12 @@ func verifDecl(line string) (res string) {
 		argTys = append(argTys, strconv.Itoa(tyID[a.Type.String()]))
 	}
 	rp := where[inj.Return.Param]
-	return fmt.Sprintf("OK async=%v err=%v args=[%s] main=[%s] go=[%s] ret=v%d.%d", g.hasAsyncProviders(), inj.IsReturnError,
-		strings.Join(argTys, ", "), strings.Join(mainS, " "), strings.Join(gos, " | "), rp.node, rp.group)
+	retS := fmt.Sprintf("v%d.%d", rp.node, rp.group)
+	if inj.Return.Param.isArg {
+		retS = fmt.Sprintf("a%d:%d", rp.node, tyID[inj.Return.Param.Type().String()])
+	}
+	return fmt.Sprintf("OK async=%v err=%v args=[%s] main=[%s] go=[%s] ret=%s", g.hasAsyncProviders(), inj.IsReturnError,
+		strings.Join(argTys, ", "), strings.Join(mainS, " "), strings.Join(gos, " | "), retS)
 }
 
 func TestVerifDriver(t *testing.T) {
